@@ -94,6 +94,9 @@ var ruleExtend = &core.Rule{ID: "R14.1", Min: 6,
 						if _, isAlloc := ia.X.(*ssa.Alloc); isAlloc {
 							continue // filling the fresh one-element array
 						}
+						if _, isMake := ia.X.(*ssa.MakeSlice); isMake {
+							continue // filling the fresh children slice (its shape is checked at the publication)
+						}
 					}
 					s.Bad("Extend writes only the new node and the children field", c.Pos(st.Pos()), "unexpected store in Extend")
 					continue
@@ -145,6 +148,58 @@ var ruleExtend = &core.Rule{ID: "R14.1", Min: 6,
 								}
 							}
 						}
+					}
+					if mk, isMake := st.Val.(*ssa.MakeSlice); isMake {
+						// make(len(old)+1); new[0] = node; copy(new[1:], old)
+						isOld := func(v ssa.Value) bool {
+							base, fld, ok := core.LoadOfField(v)
+							if !ok || fld != tm.FChildren || base != ssa.Value(recv) {
+								return false
+							}
+							// read with the write lock held
+							ld := v.(*ssa.UnOp)
+							if regions[f][ld.Block()] == 2 {
+								return true
+							}
+							lockIdx := -1
+							for i, x := range ld.Block().Instrs {
+								if name, deferred := cm.muCall(x); name == "Lock" && !deferred {
+									lockIdx = i
+								}
+							}
+							return lockIdx >= 0 && core.InstrIndex(ld) > lockIdx
+						}
+						okLen := false
+						if add, ok := mk.Len.(*ssa.BinOp); ok && add.Op == token.ADD && core.IsConstInt(add.Y, 1) {
+							if ln, ok := add.X.(*ssa.Call); ok && core.IsBuiltin(&ln.Call, "len") && isOld(ln.Call.Args[0]) {
+								okLen = true
+							}
+						}
+						nFirst, okFirst, nCopy, okCopy, other := 0, false, 0, false, false
+						for _, ref := range *mk.Referrers() {
+							switch x := ref.(type) {
+							case *ssa.IndexAddr:
+								for _, r2 := range *x.Referrers() {
+									if s2, ok := r2.(*ssa.Store); ok {
+										nFirst++
+										okFirst = core.IsConstInt(x.Index, 0) && ((fresh != nil && s2.Val == ssa.Value(fresh)) || (ctorCall != nil && s2.Val == ssa.Value(ctorCall)))
+									}
+								}
+							case *ssa.Slice:
+								for _, r2 := range *x.Referrers() {
+									if cp, ok := r2.(*ssa.Call); ok && core.IsBuiltin(&cp.Call, "copy") && cp.Call.Args[0] == ssa.Value(x) {
+										nCopy++
+										okCopy = core.IsConstInt(x.Low, 1) && x.High == nil && isOld(cp.Call.Args[1])
+									} else {
+										other = true
+									}
+								}
+							case *ssa.Store, *ssa.DebugRef:
+							default:
+								other = true
+							}
+						}
+						okShape = okLen && nFirst == 1 && okFirst && nCopy == 1 && okCopy && !other
 					}
 					s.Check(okShape, "new children = [new] ++ old", c.Pos(st.Pos()), "append([]*T{new}, old...)", why)
 				default:
@@ -476,6 +531,14 @@ func aliasScanReturns(m *walkModel, f *ssa.Function, recv, name ssa.Value, hitOK
 		if !ok {
 			continue
 		}
+		if isAliasContains(m, call, recv, name) {
+			for _, ref := range *call.Referrers() {
+				if iff, ok := ref.(*ssa.If); ok && hitOK(iff.Block().Succs[0]) {
+					return true
+				}
+			}
+			continue
+		}
 		ri, ni, ok := aliasHelper(m, call.Call.StaticCallee())
 		if !ok || call.Call.Args[ri] != recv || call.Call.Args[ni] != name {
 			continue
@@ -487,6 +550,24 @@ func aliasScanReturns(m *walkModel, f *ssa.Function, recv, name ssa.Value, hitOK
 		}
 	}
 	return false
+}
+
+// isAliasContains: call is slices.Contains(recv.aliases, name): true exactly
+// when some registered alias equals name (library contract).
+func isAliasContains(m *walkModel, call *ssa.Call, recv, name ssa.Value) bool {
+	g := call.Call.StaticCallee()
+	if g == nil || len(call.Call.Args) != 2 {
+		return false
+	}
+	o := g.Origin()
+	if o == nil {
+		o = g
+	}
+	if o.Pkg == nil || o.Pkg.Pkg.Path() != "slices" || o.Name() != "Contains" {
+		return false
+	}
+	base, fld, ok := core.LoadOfField(call.Call.Args[0])
+	return ok && fld == m.tm.FAliases && base == recv && call.Call.Args[1] == name
 }
 
 func retOf(b *ssa.BasicBlock) *ssa.Return {
@@ -505,6 +586,20 @@ var ruleEquality = &core.Rule{ID: "R15.1", Min: 4,
 		cm := getConc(c)
 		tm := m.tm
 		parsedOf := func(v ssa.Value) (ssa.Value, bool) {
+			// through a normalising helper: h(s) returning the first result of mime.ParseMediaType(s)
+			if call, ok := v.(*ssa.Call); ok {
+				if h := call.Call.StaticCallee(); h != nil && core.InMod(h) && h.Blocks != nil && len(h.Params) == 1 && len(call.Call.Args) == 1 {
+					rs := core.Returns(h)
+					if len(rs) == 1 && len(rs[0].Results) == 1 {
+						if ex, ok := rs[0].Results[0].(*ssa.Extract); ok && ex.Index == 0 {
+							if pc, ok := ex.Tuple.(*ssa.Call); ok && core.CalleeIs(&pc.Call, "mime", "ParseMediaType") && pc.Call.Args[0] == ssa.Value(h.Params[0]) {
+								return call.Call.Args[0], true
+							}
+						}
+					}
+				}
+				return nil, false
+			}
 			ex, ok := v.(*ssa.Extract)
 			if !ok || ex.Index != 0 {
 				return nil, false
@@ -590,6 +685,9 @@ var ruleEquality = &core.Rule{ID: "R15.1", Min: 4,
 									if ri, ni, ok := aliasHelper(m, call.Call.StaticCallee()); ok && call.Call.Args[ri] == ssa.Value(f.Params[0]) && call.Call.Args[ni] == name {
 										okVisit = true
 									}
+									if isAliasContains(m, call, f.Params[0], name) {
+										okVisit = true
+									}
 								}
 							}
 						}
@@ -602,6 +700,13 @@ var ruleEquality = &core.Rule{ID: "R15.1", Min: 4,
 					if core.CalleeIs(ci.Common(), "mime", "ParseMediaType") {
 						if base, fld, ok := core.LoadOfField(ci.Common().Args[0]); ok && fld == tm.FMime && base == ssa.Value(f.Params[0]) {
 							okRecv = true
+						}
+					}
+					if call, ok := ci.(*ssa.Call); ok {
+						if arg, ok := parsedOf(call); ok {
+							if base, fld, ok := core.LoadOfField(arg); ok && fld == tm.FMime && base == ssa.Value(f.Params[0]) {
+								okRecv = true
+							}
 						}
 					}
 				}
@@ -628,6 +733,11 @@ var ruleEquality = &core.Rule{ID: "R15.1", Min: 4,
 							_, okY := parsedOf(y.Y)
 							return y.Op == token.EQL && okX && okY
 						case *ssa.Call:
+							if f.Signature.Recv() != nil && len(y.Call.Args) == 2 {
+								if _, isParsed := parsedOf(y.Call.Args[1]); isParsed && isAliasContains(m, y, f.Params[0], y.Call.Args[1]) {
+									return true
+								}
+							}
 							_, _, okH := aliasHelper(m, y.Call.StaticCallee())
 							return okH
 						case *ssa.Phi:
